@@ -303,4 +303,3 @@ Proof.
   pose proof (parse_program_scoped autovars switches ee _ _ _ H) as B'.
   unfold all_src, all_scoped in *. rewrite Forall_forall in *. intros b Hb. split; auto.
 Qed.
-Print Assumptions accepted_bodies_are_src_ok.
